@@ -15,9 +15,9 @@ LEVEL = "model_checking"
 QUEUE_MC = dict(quick=["MC_iter_small.cfg", "MC_iter_small_p.cfg", "MC_iter_small_2.cfg"],
                 thorough=["MC_iter_small.cfg", "MC_iter_full_p.cfg", "MC_iter_full_2.cfg", "MC_iter_full.cfg"])
 DEQUE_MC = dict(quick=["MC_iter_small_fwd.cfg", "MC_iter_small_rev.cfg", "MC_iter_small_nb.cfg", "MC_iter_small_nbrev.cfg",
-                       "MC_iter_pingpong.cfg"],
+                       "MC_iter_ring_fwd.cfg", "MC_iter_ring_rev.cfg", "MC_iter_pingpong.cfg"],
                 thorough=["MC_iter_small_nb.cfg", "MC_iter_small_nbrev.cfg", "MC_iter_full_fwd.cfg", "MC_iter_full_rev.cfg",
-                          "MC_iter_pingpong.cfg"])
+                          "MC_iter_ring_rev.cfg", "MC_iter_full_ring.cfg", "MC_iter_pingpong.cfg"])
 # (component, module, cfg, invariant TLC must report violated, what the pre-fix code did)
 ASIS = [
     ("queue", "QueueIter", "MC_iter_asis_window_stuck.cfg", "NoStuckIter", "an Add in the unlocked window is missed: iterator parked with an unseen item (before 61f9bef)"),
@@ -27,6 +27,7 @@ ASIS = [
     ("deque", "DequeIter", "MC_iter_asis_signal.cfg", "NoStuckIter", "PushBack does not signal nfront: tail iterator stays parked (before 1bb36cf)"),
     ("deque", "DequeIter", "MC_iter_asis_close.cfg", "NoStuckIter", "Close wakes nobody: blocked iterator does not return (before 58b061a)"),
     ("deque", "DequeIter", "MC_iter_asis_helper.cfg", "NoStuckIter", "cancellation between check and park is lost (before 8d14576)"),
+    ("deque", "DequeIter", "MC_iter_evict_zeroes.cfg", "YieldsArePushed", "hypothetical: a Force push zeroes the item of the element it evicts - an iterator walking through it yields a value nobody pushed"),
 ]
 
 
@@ -40,12 +41,13 @@ def _k(x):
 
 
 def edge_class(b):
-    """Class of a behaviour = the kind of its last edge (setup, step, kind of every allowed observation, start
-    order of the pending calls).  Sampling takes some behaviours of every class."""
+    """Class of a behaviour = the kind of its last edge (setup, step, kind of every allowed observation - incl. whether
+    the behaviour continues with a value that is no longer present -, start order of the pending calls, how items were
+    removed so far: Pop / eviction by a Force push).  Sampling takes some behaviours of every class."""
     s0, st = b[0], b[-1]
     return json.dumps([s0["arg"], s0["it"], s0["res"], s0["blocking"], st["op"], st["arg"] if st["op"] == "pop" else "",
-                       st["hold"], _k(st["res"]), [(e["t"], _k(e["br"]), e["mayblock"], len(e["vals"]) > 1) for e in st["obs"]],
-                       st["porder"]])
+                       st["hold"], _k(st["res"]), [(e["t"], _k(e["br"]), e["mayblock"], len(e["vals"]) > 1, e.get("stale", False)) for e in st["obs"]],
+                       st["porder"], st.get("tcause", "")])
 
 
 def stratified(behs, per_class, rng):
@@ -170,6 +172,9 @@ def trace_key(hist, info):
         res = str(ev.get("res", ""))
         if res.startswith("panic"):
             return "qiter/%s/trace/%s-panic" % (kind, op)
+        handed = {e.get("arg") for e in hist if e.get("ev") == "call" and e.get("op") in ("add", "fadd", "badd")}
+        if op == "next" and res not in ("eof", "ctx") and not res.startswith("err:") and res not in handed:
+            return "qiter/%s/trace/next-value-never-added" % kind
         return "qiter/%s/trace/%s-unexplainable-result" % (kind, op)
     return "qiter/%s/trace/history-rejected" % kind
 
@@ -330,8 +335,8 @@ def run(rep, tier, seed, replay_file=None):
     rep.assumptions += [
         "TLC is sound; sync.Mutex/sync.Cond/context and the per-wait helper goroutines behave as modelled in QueueIter.tla / DequeIter.tla",
         "a goroutine snapshot with nothing runnable is a fixed point (rt.Quiesce); 'not remaining blocked' = not blocked at the next quiescent point",
-        "readings (DESIGN 5.0, strongest premise / weakest obligation): 'added later' = added at the far end in iteration direction; a removal is "
-        "concurrent for an iterator when it takes effect after the iterator's first call; under concurrent removals an iterator may yield any value "
+        "readings (DESIGN 5.0, strongest premise / weakest obligation): 'added later' = added at the far end in iteration direction; a removal "
+        "(Remove, Pop, or the eviction a Force push performs on a deque at capacity) is concurrent for an iterator when it takes effect after the iterator's first call; under concurrent removals an iterator may yield any value "
         "added behind its position (increasing in the add history), may end, and must return once the container is closed or its context cancelled",
         "io.EOF = an error for which errors.Is(err, io.EOF) holds (ErrQueueClosed wraps io.EOF)",
         "fun.Iterator binds its producer to the context of the first call: the Iterator-based variants are driven with one context per iterator",
@@ -385,7 +390,7 @@ def run(rep, tier, seed, replay_file=None):
     # ---- 2. model -> code
     gen = {jobs[i][3]: replay.dedupe(res[i].tagged.get("BEH", [])) for i in range(len(jobs)) if jobs[i][0] == "gen"}
     edge = gen["Step_edge.cfg"]
-    sample, nclasses = stratified(edge, 3, rng)
+    sample, nclasses = stratified(edge, 2, rng)
     if quick:
         edge = sample
     behs = replay.dedupe(edge + gen["Step_sim.cfg"] + gen.get("Step_all.cfg", []))
@@ -414,8 +419,8 @@ def run(rep, tier, seed, replay_file=None):
         rep.cov["histories_with_removal"] = sum(1 for h in hists if any(e.get("ev") == "ret" and ops_of(h).get(e["id"]) in ("popn", "popf")
                                                                          and e["res"] != "none" for e in h))
         rep.cov["histories_with_blocked_call_at_quiescence"] = sum(1 for h in hists if any(e.get("ev") == "quiescent" and e["blocked"] for e in h))
-    rep.cov["rule"] = ("schedules = behaviours of IterStep (quick: 3 per class of edge of the abstract state graph + random; thorough: one per edge, "
-                       "all of length 4, 3 per class through each API, random deep ones), executed on Queue.Producer/Iterator and every Deque producer/iterator "
+    rep.cov["rule"] = ("schedules = behaviours of IterStep (quick: 2 per class of edge of the abstract state graph + random; thorough: one per edge, "
+                       "all of length 4, 2 per class through each API, random deep ones), executed on Queue.Producer/Iterator and every Deque producer/iterator "
                        "variant with each operation in its own goroutine and every observation at quiescence judged against the allowed set TLC "
-                       "printed; histories = concurrent random runs (iterators, adder, remover, closer, canceller, BlockingAdd) validated by "
+                       "printed; histories = concurrent random runs (iterators, adder - Force pushes on fixed-capacity deques -, remover, closer, canceller, BlockingAdd) validated by "
                        "IterTrace; non-trivial schedule = some call is blocked at some step; non-trivial history = more than 4 events")
